@@ -133,9 +133,28 @@ def run(ctx: C.Ctx):
     plan += [("ccqr", "orth", "faint")] * ctx.scale(20, 200) + [("gqr", "orth", "faint")] * ctx.scale(20, 200)
     plan += [("gqr", "orth", "graded")] * ctx.scale(25, 250) + [("gqr", "scale", "graded")] * ctx.scale(15, 150) \
         + [("ccqr", "orth", "graded")] * ctx.scale(10, 100)
+    # tall bases (many more modes / training examples than sensors) whose sensor rows differ in strength by 2^-24 … 2^-27 (a few loud
+    # sensors, the others quiet): the choices among the quiet ones are unique by a wide margin – and far above double-precision rounding
+    plan += [("ccqr", "orth", "tall")] * ctx.scale(15, 150) + [("gqr", "orth", "tall")] * ctx.scale(15, 150) \
+        + [("gqr", "relabel", "tall")] * ctx.scale(10, 100) + [("ccqr", "scale", "tall")] * ctx.scale(10, 100)
     for idx, (fk, ft, fo) in enumerate(plan):
         n = rng.randint(3, ctx.scale(10, 14)); m = rng.randint(2, ctx.scale(6, 10))
         B = gen.gen_generic_matrix(rng, n, m)
+        if fo == "tall":
+            n = rng.randint(3, 5); m = 2 * n + rng.randint(1, 6)
+            B = gen.gen_generic_matrix(rng, n, m)
+            if rng.random() < 0.3:
+                quiet = rng.sample(range(n), rng.randint(2, n - 1))
+                for i in quiet:
+                    B[i, :] *= 2.0 ** -rng.choice([24, 25, 26, 27])
+                ctx.count("tall_basis_with_quiet_sensors")
+            else:
+                # nearly dependent sensors: a few dominant directions plus a faint independent part (2^-23 … 2^-27 of the rest)
+                r_ = rng.randint(1, n - 2)
+                B = gen.gen_generic_matrix(rng, n, r_, -4, 4) @ gen.gen_generic_matrix(rng, r_, m, -4, 4) \
+                    + gen.gen_generic_matrix(rng, n, m) * 2.0 ** -rng.choice([23, 25, 26, 27])
+                ctx.count("tall_basis_nearly_dependent_sensors")
+            fo = None
         if fo == "graded":
             n, m = max(n, 5), max(m, 4)
             r_ = rng.randint(1, min(n, m) - 2)
